@@ -268,6 +268,12 @@ def gen_cases(tier):
                 cases.append(dict(entries=[(0, ki, None)], nested=False, opts=o, upath="/", preexist=False, ext=False, prefill=pf))
             cases.append(dict(entries=[(0, ki, None)], nested=True, opts=["-C", "-O", "-T", "-X"], upath="/", preexist=False, ext=False, prefill=pf))
             cases.append(dict(entries=[(0, ki, None)], nested=True, opts=[], upath="/sub", preexist=False, ext=False, prefill=pf))
+    # not fresh root, the colliding entry inside a sub-directory with siblings before and after it (an error of one child must not be forgotten)
+    for pf in ("slink->outside", "slink->outside/s1", "slink->outside/new", "file"):
+        for ki in (0, 1):
+            for o in ([], ["-C", "-O", "-T", "-X"]):
+                for order in ([(3, 0, None), (0, ki, None), (12, 0, None)], [(0, ki, None), (12, 0, None), (13, 1, None)]):
+                    cases.append(dict(entries=order, nested=True, opts=o, upath="/", preexist=False, ext=False, prefill=pf))
     # type bits in the mode field: alone, nested, and on a root that is not fresh
     for ki in (11, 12, 13):
         add([(0, ki, None)])
